@@ -33,7 +33,7 @@ EXHAUSTIVE_NOTE = 'all 48 poses of a 3x4 grid x all 81 areas within [-2,2]^2 con
 REQUIRED = {'quick': {'obs.checked': 15000, 'exhaustive.cases': 10000, 'cells.shown': 50000, 'cells.outside': 20000,
                       'heading.LEFT': 500, 'heading.RIGHT': 500, 'heading.BACKWARD': 500, 'shipped.obs': 1000,
                       'fn.fully_transparent': 1000, 'fn.partially_occluded': 500, 'fn.raytracing': 1000,
-                      'fn.stochastic_raytracing': 1000, 'fn.parametrised_visibility': 500}}
+                      'fn.stochastic_raytracing': 1000, 'fn.parametrised_visibility': 500, 'history_states.compared': 300}}
 
 
 def check_observation(ctx, state, area, name, obs, payload_fn, label=''):
@@ -148,6 +148,29 @@ def random_cases(ctx, n):
             ctx.sample('random', {'state': enc.render(state), 'area': obsgen.area_json(area)})
 
 
+def history_cases(ctx, n):
+    """states reached through the real dynamics (doors opened in place, boxes opened, keys moved): soundness, and the
+    observation must equal the one of a freshly built equal state"""
+    for k in range(n):
+        rng = gen.rng_for('C05hist', ctx.seed, ctx.shard, k)
+        state = obsgen.history_state(rng)
+        area = gen.rand_area(rng, maxext=4, require_ymax0=rng.random() < 0.6)
+        fresh = obsgen.rebuilt(state)
+        for name in obsgen.DETERMINISTIC:
+            if not obsgen.supported(name, area):
+                continue
+            observe(ctx, state, area, name, via_vis=False, seed=0)
+            fn = obsgen.build_obs(name, area)
+            ok1, o1 = call_real(fn, state, rng=None)
+            ok2, o2 = call_real(fn, fresh, rng=None)
+            ctx.hit('history_states.compared')
+            if ok1 and ok2 and enc.es(o1) != enc.es(o2):
+                ctx.violation('sound', 'view.differs_for_equal_states',
+                              f'{name} area {obsgen.area_json(area)}: a state reached through the dynamics and a freshly built equal '
+                              f'state are observed differently', 'obs_case',
+                              {'state': enc.state_to_json(state), 'area': obsgen.area_json(area), 'fn': name, 'via_visibility': False, 'seed': 0})
+
+
 def shipped(ctx, seeds, steps):
     job = 0
     for name, path, data in compose.shipped_configs():
@@ -187,6 +210,7 @@ def run(ctx):
     with reach(ctx, [observation_fs.from_visibility, grid_mod.Grid.subgrid, grid_mod.Grid.__mul__]):
         exhaustive(ctx)
         random_cases(ctx, ctx.pick(500, 12000))
+        history_cases(ctx, ctx.pick(150, 3000))
         shipped(ctx, ctx.pick(1, 8), ctx.pick(60, 300))
         ctx.extra['exhaustive'] = True
 
